@@ -3,6 +3,7 @@ package c16
 import (
 	"context"
 	"fmt"
+	"os"
 	"sort"
 	"strings"
 
@@ -28,13 +29,12 @@ import (
 
 func migDims() []Dim {
 	return []Dim{
-		{"layout", 5},  // 0 single module at the root (no buf.work.yaml); 1 work[a]; 2 work[a,b]; 3 work[a,sub/b]; 4 work[a,b], b without buf.yaml
-		{"import", 2},  // module B imports a file of module A
-		{"a.ver", 2},   // 0 v1, 1 v1beta1
-		{"a.roots", 3}, // v1beta1: 0 none, 1 [r1], 2 [r1,r2]
+		{"layout", 5}, // 0 work[a,b]; 1 single module at the root (no buf.work.yaml); 2 work[a]; 3 work[a,sub/b]; 4 work[a,b], b without buf.yaml
+		{"import", 2}, // module B imports a file of module A
+		{"a.kind", 4}, // 0 v1; 1 v1beta1; 2 v1beta1 with roots [r1]; 3 v1beta1 with roots [r1,r2]
 		{"a.excludes", 2},
 		{"a.name", 2},
-		{"a.lint", 13},
+		{"a.lint", 14},
 		{"a.breaking", 9},
 		{"a.deps", 2}, // dependency on a remote module, pinned in a v1 buf.lock (b4 digest), and used by a file
 		{"b.ver", 2},
@@ -42,6 +42,7 @@ func migDims() []Dim {
 		{"b.name", 2},
 		{"b.lint", 4},
 		{"b.breaking", 3},
+		{"b.deps", 3}, // 1 the same remote dependency with its own buf.lock (duplicate pins to merge); 2 declares workspace module A by name
 	}
 }
 
@@ -79,8 +80,12 @@ service PingAPI {
   rpc Ping(PingRequest) returns (PingResponse);
   rpc Same(A) returns (A);
   rpc Nothing(google.protobuf.Empty) returns (google.protobuf.Empty);
+  rpc In(google.protobuf.Empty) returns (InResponse);
+  rpc Out(OutRequest) returns (google.protobuf.Empty);
   rpc Up(stream PingRequest) returns (PingResponse);
 }
+message InResponse {}
+message OutRequest {}
 `
 
 // protoANew: field g deleted, f changes type, an enum value renamed, Up loses client streaming.
@@ -107,8 +112,12 @@ service PingAPI {
   rpc Ping(PingRequest) returns (PingResponse);
   rpc Same(A) returns (A);
   rpc Nothing(google.protobuf.Empty) returns (google.protobuf.Empty);
+  rpc In(google.protobuf.Empty) returns (InResponse);
+  rpc Out(OutRequest) returns (google.protobuf.Empty);
   rpc Up(PingRequest) returns (PingResponse);
 }
+message InResponse {}
+message OutRequest {}
 `
 
 const protoBad = `syntax = "proto3";
@@ -157,10 +166,78 @@ message skip_me {
 }
 `
 
+const protoLegacy = `syntax = "proto2";
+package p.v1;
+import "p/v2/c.proto";
+message Legacy {
+  required string id = 1;
+  optional int32 n = 2 [default = 5];
+  optional p.v2.C c = 3;
+  extensions 100 to 200;
+}
+extend Legacy {
+  optional string ext_a = 100;
+  optional string ext_b = 101;
+}
+`
+
+// protoLegacyNew: a default changes, an extension is deleted.
+const protoLegacyNew = `syntax = "proto2";
+package p.v1;
+import "p/v2/c.proto";
+message Legacy {
+  required string id = 1;
+  optional int32 n = 2 [default = 6];
+  optional p.v2.C c = 3;
+  extensions 100 to 200;
+}
+extend Legacy {
+  optional string ext_a = 100;
+}
+`
+
+// protoC closes a PACKAGE import cycle p.v1 -> p.v2 -> p.v1 (no file cycle).
+const protoC = `syntax = "proto3";
+package p.v2;
+import "p/v1/bad.proto";
+message C {
+  p.v1.bad_msg m = 1;
+}
+`
+
+const protoBLegacy = `syntax = "proto2";
+package s.v1;
+message OldS {
+  required string id = 1;
+  optional int32 n = 2 [default = 1];
+  extensions 100 to 110;
+}
+extend OldS {
+  optional string old_ext = 100;
+}
+`
+
+const protoBLegacyNew = `syntax = "proto2";
+package s.v1;
+message OldS {
+  required string id = 1;
+  optional int32 n = 2 [default = 2];
+  extensions 100 to 110;
+}
+`
+
 const protoUseDep = `syntax = "proto3";
 package p.v1;
 import "dep/v1/d.proto";
 message UsesDep {
+  dep.v1.D d = 1;
+}
+`
+
+const protoBUseDep = `syntax = "proto3";
+package s.v1;
+import "dep/v1/d.proto";
+message BUsesDep {
   dep.v1.D d = 1;
 }
 `
@@ -198,6 +275,9 @@ message b_skip {
 
 const depName = "buf.build/acme/dep"
 
+// explicitLintIDs are rule ids and categories that exist under the same name in v1beta1, v1 and v2.
+var explicitLintIDs = []string{"COMMENTS", "UNARY_RPC", "ENUM_PASCAL_CASE", "MESSAGE_PASCAL_CASE", "FIELD_LOWER_SNAKE_CASE", "SERVICE_SUFFIX", "ENUM_ZERO_VALUE_SUFFIX", "RPC_REQUEST_RESPONSE_UNIQUE", "PACKAGE_VERSION_SUFFIX"}
+
 func lintSection(val int) m {
 	switch val {
 	case 1:
@@ -213,17 +293,21 @@ func lintSection(val int) m {
 	case 6:
 		return m{"enum_zero_value_suffix": "_NONE", "service_suffix": "API"}
 	case 7:
-		return m{"rpc_allow_same_request_response": true, "rpc_allow_google_protobuf_empty_requests": true, "rpc_allow_google_protobuf_empty_responses": true}
+		return m{"rpc_allow_same_request_response": true, "rpc_allow_google_protobuf_empty_requests": true}
 	case 8:
 		return m{"allow_comment_ignores": true}
 	case 9:
 		return m{"use": list("DEFAULT", "COMMENTS", "UNARY_RPC")}
 	case 10:
-		return m{"use": list("STYLE_DEFAULT"), "ignore": list("q")}
+		return m{"use": list("STYLE_DEFAULT"), "ignore": list("q")} // a v1beta1-only category (not valid in v1)
 	case 11:
-		return m{"use": list("FILE_LAYOUT", "PACKAGE_AFFINITY", "ENUM_PASCAL_CASE", "SERVICE_SUFFIX", "MESSAGE_PASCAL_CASE"), "except": list("PACKAGE_DIRECTORY_MATCH")}
+		return m{"use": strs(explicitLintIDs)}
 	case 12:
-		return m{"use": list("DEFAULT"), "except": list("FIELD_NO_DESCRIPTOR"), "allow_comment_ignores": true, "ignore_only": m{"ENUM_VALUE_PREFIX": list("p")}}
+		return m{"use": strs(explicitLintIDs), "except": list("PACKAGE_VERSION_SUFFIX"), "allow_comment_ignores": true,
+			"enum_zero_value_suffix": "_NONE", "service_suffix": "API", "rpc_allow_same_request_response": true,
+			"ignore": list("q"), "ignore_only": m{"COMMENTS": list("p/v1/a.proto", "p/v2"), "FIELD_LOWER_SNAKE_CASE": list("p/v1/bad.proto")}}
+	case 13:
+		return m{"rpc_allow_google_protobuf_empty_responses": true}
 	}
 	return nil
 }
@@ -257,7 +341,7 @@ func bLintSection(val int) m {
 	case 2:
 		return m{"ignore": list("s/v1")}
 	case 3:
-		return m{"use": list("STYLE_DEFAULT"), "service_suffix": "Svc", "enum_zero_value_suffix": "_ZERO"}
+		return m{"use": strs(explicitLintIDs), "service_suffix": "Svc", "enum_zero_value_suffix": "_ZERO", "ignore_only": m{"COMMENTS": list("s/v1/s.proto")}}
 	}
 	return nil
 }
@@ -282,32 +366,32 @@ func buildMigCase(dims []Dim, ix dimIndex, v []int, deps *migDeps) (MigCase, boo
 		}
 	}
 	layout := ix.val(v, "layout")
-	hasB := layout >= 2
+	hasB := layout == 0 || layout >= 3
 	aDir, bDir := "a", "b"
 	switch layout {
-	case 0:
+	case 1:
 		aDir = "."
 	case 3:
 		bDir = "sub/b"
 	}
 	if !hasB {
-		for _, name := range []string{"import", "b.ver", "b.excludes", "b.name", "b.lint", "b.breaking"} {
+		for _, name := range []string{"import", "b.ver", "b.excludes", "b.name", "b.lint", "b.breaking", "b.deps"} {
 			if ix.val(v, name) != 0 {
 				return c, false
 			}
 		}
 	}
 	if layout == 4 {
-		for _, name := range []string{"b.ver", "b.excludes", "b.name", "b.lint", "b.breaking"} {
+		for _, name := range []string{"b.ver", "b.excludes", "b.name", "b.lint", "b.breaking", "b.deps"} {
 			if ix.val(v, name) != 0 {
 				return c, false // b has no buf.yaml in this layout
 			}
 		}
 	}
-	aV1beta1 := ix.val(v, "a.ver") == 1
-	roots := ix.val(v, "a.roots")
-	if roots != 0 && !aV1beta1 {
-		return c, false
+	aV1beta1 := ix.val(v, "a.kind") >= 1
+	roots := 0
+	if k := ix.val(v, "a.kind"); k >= 2 {
+		roots = k - 1
 	}
 	put := func(dir, rel, oldText, newText string) {
 		p := jp(dir, rel)
@@ -332,6 +416,8 @@ func buildMigCase(dims []Dim, ix dimIndex, v []int, deps *migDeps) (MigCase, boo
 	put(aDir, root1+"p/v1/bad.proto", protoBad, protoBadNew)
 	put(aDir, root2+"q/v1alpha1/u.proto", protoUnstable, protoUnstableNew)
 	put(aDir, root1+"ex/skip.proto", protoSkip, protoSkipNew)
+	put(aDir, root1+"p/v1/legacy.proto", protoLegacy, protoLegacyNew)
+	both(aDir, root1+"p/v2/c.proto", protoC)
 	aYAML := m{"version": "v1"}
 	if aV1beta1 {
 		aYAML["version"] = "v1beta1"
@@ -375,6 +461,7 @@ func buildMigCase(dims []Dim, ix dimIndex, v []int, deps *migDeps) (MigCase, boo
 		imp := ix.val(v, "import") == 1
 		put(bDir, "s/v1/s.proto", protoS(imp, false), protoS(imp, true))
 		both(bDir, "bex/skip.proto", protoBSkip)
+		put(bDir, "s/v1/legacy.proto", protoBLegacy, protoBLegacyNew)
 		if layout != 4 {
 			bYAML := m{"version": "v1"}
 			if ix.val(v, "b.ver") == 1 {
@@ -392,13 +479,26 @@ func buildMigCase(dims []Dim, ix dimIndex, v []int, deps *migDeps) (MigCase, boo
 			if s := bBreakingSection(ix.val(v, "b.breaking")); s != nil {
 				bYAML["breaking"] = s
 			}
+			switch ix.val(v, "b.deps") {
+			case 1:
+				bYAML["deps"] = list(depName)
+				both(bDir, "s/v1/usedep.proto", protoBUseDep)
+				lock := m{"version": "v1", "deps": []any{m{
+					"remote": "buf.build", "owner": "acme", "repository": "dep",
+					"commit": uuidutil.ToDashless(deps.commit), "digest": deps.b4,
+				}}}
+				both(bDir, "buf.lock", "# Generated by buf. DO NOT EDIT.\n"+EmitYAML(lock))
+			case 2:
+				// a dependency on a module of the same workspace (only meaningful when A is named)
+				bYAML["deps"] = list("buf.build/acme/moda")
+			}
 			both(bDir, "buf.yaml", EmitYAML(bYAML))
 		}
 		c.ModuleDirs = append(c.ModuleDirs, bDir)
 	} else if ix.val(v, "import") == 1 {
 		return c, false
 	}
-	if layout >= 1 {
+	if layout != 1 {
 		dirs := []string{aDir}
 		if hasB {
 			dirs = append(dirs, bDir)
@@ -600,10 +700,6 @@ func breakingGroup(ctx context.Context, newGroup, oldGroup []*modView) checkResu
 // ---------------------------------------------------------------------------------------------
 
 func runMigration(r *evid.Run) {
-	t := 2
-	if !r.Quick() {
-		t = 3
-	}
 	deps, err := newMigDeps()
 	if err != nil {
 		r.Incomplete("migration: cannot build the remote dependency in-process: " + err.Error())
@@ -613,14 +709,58 @@ func runMigration(r *evid.Run) {
 	ix := indexDims(dims)
 	var cases []MigCase
 	undefined := 0
-	TWay(dims, t, func(v []int) {
+	// VERIF_C16_MIG_DIMS (development aid, e.g. for mutant runs): only these dimensions may be non-zero
+	allowed := map[string]bool{}
+	for _, name := range strings.Split(os.Getenv("VERIF_C16_MIG_DIMS"), ",") {
+		if name != "" {
+			allowed[name] = true
+		}
+	}
+	if len(allowed) > 0 {
+		r.Incomplete("migration restricted to dimensions " + os.Getenv("VERIF_C16_MIG_DIMS") + " (VERIF_C16_MIG_DIMS)")
+	}
+	// The check sections of module A interact with the dimensions that change paths or module
+	// boundaries (layout, kind/roots, excludes, import); the migrator converts every module's lint
+	// and breaking section by an independent call, so sections do not interact with each other, with
+	// names, deps or module B's sections.
+	//   quick:    singles + all pairs of interacting dimensions
+	//   thorough: singles + ALL pairs + all triples of pairwise interacting dimensions
+	structural := map[string]bool{"layout": true, "import": true, "a.kind": true, "a.excludes": true}
+	isSection := func(n string) bool { return n == "a.lint" || n == "a.breaking" }
+	interacts := func(a, b string) bool {
+		if isSection(a) && !structural[b] || isSection(b) && !structural[a] {
+			return false
+		}
+		return true
+	}
+	seenKey := map[string]bool{}
+	add := func(v []int) {
+		if len(allowed) > 0 {
+			for i, d := range dims {
+				if v[i] != 0 && !allowed[d.Name] {
+					return
+				}
+			}
+		}
 		c, ok := buildMigCase(dims, ix, v, deps)
 		if !ok {
 			undefined++
 			return
 		}
+		if seenKey[c.Key] {
+			return
+		}
+		seenKey[c.Key] = true
 		cases = append(cases, c)
-	})
+	}
+	if r.Quick() {
+		r.Set("migration_enumeration", "every single dimension at every value + all pairs of interacting dimensions (sections of module A x structural dimensions; every pair not involving a section of module A)")
+		TWayInteracting(dims, 2, interacts, add)
+	} else {
+		r.Set("migration_enumeration", "every single dimension at every value + ALL pairs + all triples of pairwise interacting dimensions")
+		TWay(dims, 2, add)
+		TWayInteracting(dims, 3, interacts, add)
+	}
 	r.Set("migration_workspaces_generated", len(cases))
 	r.Set("migration_vectors_outside_grammar", undefined)
 	cov := newCounter()
@@ -646,106 +786,131 @@ func runMigration(r *evid.Run) {
 // migrateOne explores one workspace. full also runs the real migrator on the edited copy (otherwise the
 // edited .proto files are placed under the migrated configuration of the original, which is
 // cross-checked to be the same thing on every case with full=true).
-func migrateOne(r *evid.Run, c MigCase, deps *migDeps, cov, skips *counter, full bool) {
+func migrateOne(r sink, c MigCase, deps *migDeps, cov, skips *counter, full bool) {
 	ctx := context.Background()
-	type state struct {
-		before, after []*modView
-		afterFiles    map[string]string
+	skip := func(why string) {
+		cov.add("skipped_invalid_before_migration", 1)
+		skips.add(why, 1)
 	}
-	var st [2]state // 0 old, 1 new (edited copy)
-	migrateBucket := func(files map[string]string) (storage.ReadWriteBucket, map[string]string, bool) {
+	// ---- before: both states must build, lint and breaking must run (the configuration is valid)
+	var before [2]map[string][]*modView // 0 old, 1 new (edited copy)
+	for k, files := range []map[string]string{c.Old, c.New} {
+		views, _, err := viewWorkspace(ctx, bufx.MemBucket(files), deps)
+		if err != nil {
+			skip("workspace before: " + shorten(err.Error()))
+			return
+		}
+		grouped, orphans := groupByOriginal(views, c.ModuleDirs)
+		if len(orphans) > 0 {
+			r.Incomplete(fmt.Sprintf("migration harness: module %v outside the generated module dirs %v", orphans, c.ModuleDirs))
+			return
+		}
+		before[k] = grouped
+	}
+	lintBefore, breakingBefore := map[string]checkResult{}, map[string]checkResult{}
+	for _, dir := range c.ModuleDirs {
+		lintBefore[dir] = lintGroup(ctx, before[0][dir])
+		if e := lintBefore[dir].err; e != "" {
+			skip("lint before: " + shorten(e))
+			return
+		}
+		breakingBefore[dir] = breakingGroup(ctx, before[1][dir], before[0][dir])
+		if e := breakingBefore[dir].err; e != "" {
+			skip("breaking before: " + shorten(e))
+			return
+		}
+	}
+	// ---- migrate
+	migrate := func(files map[string]string) (map[string]string, bool) {
 		bucket, err := memBucketRW(files)
 		if err != nil {
 			r.Incomplete("migration harness: " + err.Error())
-			return nil, nil, false
+			return nil, false
 		}
 		migrator := bufmigrate.NewMigrator(bufx.Logger, deps.omni, deps.omni)
 		if err := bufmigrate.MigrateAll(ctx, migrator, bucket, nil); err != nil {
-			r.Violate("migrate/error/"+errClass(err.Error()), "a workspace that builds is rejected by the migrator: "+err.Error(), m{"case": c})
-			return nil, nil, false
+			r.Violate("migrate/error/"+errClass(err.Error()),
+				"a workspace that builds, lints and breaking-checks without error is rejected by the migrator: "+err.Error(), m{"kind": "migration", "case": c})
+			return nil, false
 		}
-		after, _ := bucketFiles(ctx, bucket)
-		return bucket, after, true
-	}
-	for k, files := range []map[string]string{c.Old, c.New} {
-		bucket, err := memBucketRW(files)
+		after, err := bucketFiles(ctx, bucket)
 		if err != nil {
 			r.Incomplete("migration harness: " + err.Error())
+			return nil, false
+		}
+		return after, true
+	}
+	var afterFiles [2]map[string]string
+	var ok bool
+	if afterFiles[0], ok = migrate(c.Old); !ok {
+		return
+	}
+	migrated := configFiles(afterFiles[0])
+	if full {
+		if afterFiles[1], ok = migrate(c.New); !ok {
 			return
 		}
-		before, _, err := viewWorkspace(ctx, bucket, deps)
+		// the migrator only reads configuration files: the migrated configuration of the edited copy
+		// must be the one of the original (this is what lets the other cases skip the second run)
+		if fmt.Sprint(migrated) != fmt.Sprint(configFiles(afterFiles[1])) {
+			r.Incomplete("migration harness: migrated configuration depends on .proto content for case " + c.Key)
+			return
+		}
+		cov.add("second_migration_cross_checked", 1)
+	} else {
+		afterFiles[1] = map[string]string{}
+		for p, text := range c.New {
+			if strings.HasSuffix(p, ".proto") {
+				afterFiles[1][p] = text
+			}
+		}
+		for p, text := range migrated {
+			afterFiles[1][p] = text
+		}
+	}
+	// ---- after
+	for p := range afterFiles[0] {
+		base := p[strings.LastIndex(p, "/")+1:]
+		if base == "buf.work.yaml" || (base == "buf.yaml" && p != "buf.yaml") || (base == "buf.lock" && p != "buf.lock") {
+			r.Violate("migrate/leftover/"+base, "a v1 configuration file is still present after migration: "+p, m{"kind": "migration", "case": c, "migrated": migrated})
+		}
+	}
+	var after [2]map[string][]*modView
+	for k := range afterFiles {
+		views, _, err := viewWorkspace(ctx, bufx.MemBucket(afterFiles[k]), deps)
 		if err != nil {
-			cov.add("skipped_before_invalid", 1)
-			skips.add(shorten(err.Error()), 1)
+			r.Violate("migrate/workspace-after/"+errClass(err.Error()), "the migrated workspace does not build: "+err.Error(), m{"kind": "migration", "case": c, "migrated": migrated})
 			return
 		}
-		st[k].before = before
-		var migrated storage.ReadBucket
-		if k == 0 || full {
-			b, after, ok := migrateBucket(files)
-			if !ok {
-				return
-			}
-			migrated, st[k].afterFiles = b, after
-			if k == 1 {
-				// the migrator only reads configuration files: the migrated configuration of the edited
-				// copy must be the one of the original (this is what lets the other cases skip this run)
-				if fmt.Sprint(configFiles(st[0].afterFiles)) != fmt.Sprint(configFiles(after)) {
-					r.Incomplete("migration harness: migrated configuration depends on .proto content for case " + c.Key)
-					return
-				}
-				cov.add("second_migration_cross_checked", 1)
-			}
-		} else {
-			// edited copy: the new .proto files under the migrated configuration files of the original
-			st[k].afterFiles = map[string]string{}
-			for p, text := range files {
-				if strings.HasSuffix(p, ".proto") {
-					st[k].afterFiles[p] = text
-				}
-			}
-			for p, text := range configFiles(st[0].afterFiles) {
-				st[k].afterFiles[p] = text
-			}
-			migrated = bufx.MemBucket(st[k].afterFiles)
-		}
-		after, _, err := viewWorkspace(ctx, migrated, deps)
-		if err != nil {
-			r.Violate("migrate/workspace-after/"+errClass(err.Error()), "the migrated workspace does not build: "+err.Error(), m{"case": c, "migrated": configFiles(st[k].afterFiles)})
+		grouped, orphans := groupByOriginal(views, c.ModuleDirs)
+		if len(orphans) > 0 {
+			r.Violate("migrate/modules/unexpected-module", fmt.Sprintf("modules outside the original module directories after migration: %v", orphans), m{"kind": "migration", "case": c, "migrated": migrated})
 			return
 		}
-		st[k].after = after
+		after[k] = grouped
 	}
 	cov.add("migrated", 1)
 	r.Distinct("migrate|" + c.Key)
-	countMigClauses(cov, c, st[0].afterFiles)
-	migrated := configFiles(st[0].afterFiles)
+	countMigClauses(cov, c, afterFiles[0])
 
-	// leftovers: every v1 config file must be gone, exactly one buf.yaml (v2) must exist
-	for p := range st[0].afterFiles {
-		if strings.HasSuffix(p, "buf.work.yaml") {
-			r.Violate("migrate/leftover/buf.work.yaml", "buf.work.yaml still present after migration", m{"case": c, "migrated": migrated})
+	for di, dir := range c.ModuleDirs {
+		// structural role of the module, used in signatures
+		role := "v1-module"
+		switch {
+		case di == 0 && c.Vector["a.kind"] >= 1, di == 1 && c.Vector["b.ver"] == 1:
+			role = "v1beta1-module"
+		case di == 1 && c.Vector["layout"] == 4:
+			role = "module-without-buf.yaml"
 		}
-	}
-
-	oldBefore, orphans1 := groupByOriginal(st[0].before, c.ModuleDirs)
-	oldAfter, orphans2 := groupByOriginal(st[0].after, c.ModuleDirs)
-	newBefore, _ := groupByOriginal(st[1].before, c.ModuleDirs)
-	newAfter, _ := groupByOriginal(st[1].after, c.ModuleDirs)
-	if len(orphans1)+len(orphans2) > 0 {
-		r.Violate("migrate/modules/unexpected-module", fmt.Sprintf("modules outside the original module directories: before %v after %v", orphans1, orphans2), m{"case": c, "migrated": migrated})
-		return
-	}
-	for _, dir := range c.ModuleDirs {
 		// 1. same file set, each file in exactly one module
 		bf, af := map[string]*descriptorpb.FileDescriptorProto{}, map[string]*descriptorpb.FileDescriptorProto{}
-		for _, mv := range oldBefore[dir] {
+		for _, mv := range before[0][dir] {
 			for p, d := range mv.files {
 				bf[p] = d
 			}
 		}
 		dup := ""
-		for _, mv := range oldAfter[dir] {
+		for _, mv := range after[0][dir] {
 			for p, d := range mv.files {
 				if _, ok := af[p]; ok {
 					dup = p
@@ -753,8 +918,11 @@ func migrateOne(r *evid.Run, c MigCase, deps *migDeps, cov, skips *counter, full
 				af[p] = d
 			}
 		}
+		if len(after[0][dir]) > 1 {
+			cov.add("module_split_into_several", 1)
+		}
 		if dup != "" {
-			r.Violate("migrate/files/file-in-two-modules", "after migration file "+dup+" of module "+dir+" is built by two modules", m{"case": c, "migrated": migrated})
+			r.Violate("migrate/files/file-in-two-modules", "after migration file "+dup+" of module "+dir+" is built by two modules", m{"kind": "migration", "case": c, "migrated": migrated})
 		}
 		var missing, extra []string
 		for p := range bf {
@@ -774,42 +942,37 @@ func migrateOne(r *evid.Run, c MigCase, deps *migDeps, cov, skips *counter, full
 			if len(missing) == 0 {
 				kind = "extra"
 			}
-			r.Violate("migrate/files/"+kind, fmt.Sprintf("module %s: files built before but not after %v, after but not before %v", dir, missing, extra), m{"case": c, "migrated": migrated})
+			r.Violate("migrate/files/"+kind, fmt.Sprintf("module %s: files built before but not after %v, after but not before %v", dir, missing, extra), m{"kind": "migration", "case": c, "migrated": migrated})
+		}
+		if len(bf) > 0 {
+			cov.add("file_sets_compared", 1)
 		}
 		// 2. descriptors
 		for p, d := range bf {
 			if ad, ok := af[p]; ok {
 				cov.add("descriptors_compared", 1)
 				if !proto.Equal(d, ad) {
-					r.Violate("migrate/descriptor/changed", "module "+dir+": descriptor of "+p+" differs after migration", m{"case": c, "migrated": migrated})
+					r.Violate("migrate/descriptor/changed", "module "+dir+": descriptor of "+p+" differs after migration", m{"kind": "migration", "case": c, "migrated": migrated})
 				}
 			}
 		}
 		// 3. lint
-		lb, la := lintGroup(ctx, oldBefore[dir]), lintGroup(ctx, oldAfter[dir])
-		if lb.err != "" {
-			cov.add("lint_error_before", 1)
-			skips.add("lint before: "+shorten(lb.err), 1)
-		} else {
-			cov.add("lint_compared", 1)
-			if len(lb.anns) > 0 {
-				cov.add("lint_nonempty_before", 1)
-			}
-			reportCheckDiff(r, "lint", dir, lb, la, c, migrated, disabledFlip(oldBefore[dir], oldAfter[dir], func(mv *modView) bool { return mv.lintCfg.Disabled() }))
+		lb := lintBefore[dir]
+		cov.add("lint_compared", 1)
+		if len(lb.anns) > 0 {
+			cov.add("lint_nonempty_before", 1)
 		}
-		// 4. breaking (new against old)
-		bb, ba := breakingGroup(ctx, newBefore[dir], oldBefore[dir]), breakingGroup(ctx, newAfter[dir], oldAfter[dir])
-		if bb.err != "" {
-			cov.add("breaking_error_before", 1)
-			skips.add("breaking before: "+shorten(bb.err), 1)
-		} else {
-			cov.add("breaking_compared", 1)
-			if len(bb.anns) > 0 {
-				cov.add("breaking_nonempty_before", 1)
-			}
-			reportCheckDiff(r, "breaking", dir, bb, ba, c, migrated, disabledFlip(newBefore[dir], newAfter[dir], func(mv *modView) bool { return mv.brkCfg.Disabled() }))
+		reportCheckDiff(r, "lint", role, dir, lb, lintGroup(ctx, after[0][dir]), c, migrated,
+			disabledFlip(before[0][dir], after[0][dir], func(mv *modView) bool { return mv.lintCfg.Disabled() }))
+		// 4. breaking (edited copy against original)
+		bb := breakingBefore[dir]
+		cov.add("breaking_compared", 1)
+		if len(bb.anns) > 0 {
+			cov.add("breaking_nonempty_before", 1)
 		}
-		for _, mv := range oldBefore[dir] {
+		reportCheckDiff(r, "breaking", role, dir, bb, breakingGroup(ctx, after[1][dir], after[0][dir]), c, migrated,
+			disabledFlip(before[1][dir], after[1][dir], func(mv *modView) bool { return mv.brkCfg.Disabled() }))
+		for _, mv := range before[0][dir] {
 			if mv.lintCfg.Disabled() {
 				cov.add("lint_disabled_before", 1)
 			}
@@ -821,20 +984,20 @@ func migrateOne(r *evid.Run, c MigCase, deps *migDeps, cov, skips *counter, full
 }
 
 // reportCheckDiff compares the results of a check before and after migration.
-func reportCheckDiff(r *evid.Run, kind, dir string, before, after checkResult, c MigCase, migrated map[string]string, disabledBecameEnabled bool) {
+func reportCheckDiff(r sink, kind, role, dir string, before, after checkResult, c MigCase, migrated map[string]string, disabledBecameEnabled bool) {
 	if disabledBecameEnabled {
 		// the structural cause is known: name the defect, not the annotations it happens to produce
 		if before.String() != after.String() {
 			r.Violate("migrate/"+kind+"/switched-off-check-enabled-by-migration",
 				fmt.Sprintf("module %s: %s was switched off for the module (ignore names the module itself, Disabled()==true) and is enabled after migration; results before %q after %q", dir, kind, clip(before.String()), clip(after.String())),
-				m{"case": c, "migrated": migrated, "before": before.String(), "after": after.String()})
+				m{"kind": "migration", "case": c, "migrated": migrated, "before": before.String(), "after": after.String()})
 		}
 		return
 	}
 	if after.err != "" {
 		r.Violate("migrate/"+kind+"/error-after/"+errClass(after.err),
 			fmt.Sprintf("module %s: %s worked before migration (%d annotations) and fails after it: %s", dir, kind, len(before.anns), after.err),
-			m{"case": c, "migrated": migrated, "before": before.String()})
+			m{"kind": "migration", "case": c, "migrated": migrated, "before": before.String()})
 		return
 	}
 	var lost, gained []string
@@ -875,9 +1038,9 @@ func reportCheckDiff(r *evid.Run, kind, dir string, before, after checkResult, c
 	if len(idList) > 4 {
 		idList = append(idList[:4], "...")
 	}
-	r.Violate(fmt.Sprintf("migrate/%s/annotations-%s/%s", kind, dirn, strings.Join(idList, "+")),
+	r.Violate(fmt.Sprintf("migrate/%s/%s/annotations-%s/%s", kind, role, dirn, strings.Join(idList, "+")),
 		fmt.Sprintf("module %s: %s results differ after migration: lost %v gained %v", dir, kind, lost, gained),
-		m{"case": c, "migrated": migrated, "before": before.String(), "after": after.String()})
+		m{"kind": "migration", "case": c, "migrated": migrated, "before": before.String(), "after": after.String()})
 }
 
 // disabledFlip reports whether some module's check config was Disabled() before migration while
@@ -907,17 +1070,26 @@ func clip(s string) string {
 	return s
 }
 
-// errClass maps an error of the check client to a stable class.
+// v1beta1OnlyIDs are the lint rule and category names that exist only in the v1beta1 rule set
+// (reference data from buf's rule documentation; v1 and v2 do not know them).
+var v1beta1OnlyIDs = map[string]bool{
+	"FIELD_NO_DESCRIPTOR": true, "FILE_LAYOUT": true, "PACKAGE_AFFINITY": true, "SENSIBLE": true,
+	"STYLE_BASIC": true, "STYLE_DEFAULT": true, "OTHER": true,
+}
+
+// errClass maps an error of the migrator / check client to a stable class.
 func errClass(s string) string {
-	switch {
-	case strings.Contains(s, "is not a known rule or category ID"):
-		// keep the id: it names the defect
+	if strings.Contains(s, "is not a known rule or category ID") {
+		id := ""
 		if i := strings.Index(s, "\""); i >= 0 {
 			if j := strings.Index(s[i+1:], "\""); j >= 0 {
-				return "unknown-rule-id/" + s[i+1:i+1+j]
+				id = s[i+1 : i+1+j]
 			}
 		}
-		return "unknown-rule-id"
+		if v1beta1OnlyIDs[id] {
+			return "v1beta1-only-id-carried-into-v2"
+		}
+		return "unknown-rule-id/" + id
 	}
 	return shorten(s)
 }
@@ -934,22 +1106,23 @@ func configFiles(files map[string]string) map[string]string {
 
 func countMigClauses(cov *counter, c MigCase, after map[string]string) {
 	v := c.Vector
-	if v["a.ver"] == 1 || v["b.ver"] == 1 {
+	hasB := v["layout"] == 0 || v["layout"] >= 3
+	if v["a.kind"] >= 1 || v["b.ver"] == 1 {
 		cov.add("v1beta1_module", 1)
 	}
-	if v["a.ver"] == 0 {
+	if v["a.kind"] == 0 {
 		cov.add("v1_module", 1)
 	}
-	if v["a.roots"] == 2 {
+	if v["a.kind"] == 3 {
 		cov.add("v1beta1_multiple_roots", 1)
 	}
 	if v["a.excludes"] == 1 || v["b.excludes"] == 1 {
 		cov.add("excludes", 1)
 	}
-	if v["layout"] >= 2 {
+	if hasB {
 		cov.add("two_modules", 1)
 	}
-	if v["layout"] == 0 {
+	if v["layout"] == 1 {
 		cov.add("single_module_no_workspace_file", 1)
 	}
 	if v["layout"] == 4 {
@@ -958,7 +1131,13 @@ func countMigClauses(cov *counter, c MigCase, after map[string]string) {
 	if v["import"] == 1 {
 		cov.add("inter_module_import", 1)
 	}
-	if v["a.deps"] == 1 {
+	if v["b.deps"] == 1 && v["a.deps"] == 1 {
+		cov.add("two_locks_merged", 1)
+	}
+	if v["b.deps"] == 2 {
+		cov.add("dep_on_workspace_module", 1)
+	}
+	if v["a.deps"] == 1 || v["b.deps"] == 1 {
 		cov.add("remote_dep_with_lock", 1)
 		for p, text := range after {
 			if strings.HasSuffix(p, "buf.lock") && strings.Contains(text, "digest: b5:") {
@@ -966,7 +1145,7 @@ func countMigClauses(cov *counter, c MigCase, after map[string]string) {
 			}
 		}
 	}
-	if v["layout"] >= 2 && (v["a.lint"] != 0 || v["b.lint"] != 0 || v["a.breaking"] != 0 || v["b.breaking"] != 0) {
+	if hasB && (v["a.lint"] != 0 || v["b.lint"] != 0 || v["a.breaking"] != 0 || v["b.breaking"] != 0) {
 		cov.add("per_module_configs_differ", 1)
 	}
 }
